@@ -6,6 +6,7 @@
 #include "common.h"
 #include <string.h>
 #include <stdlib.h>
+#include <stddef.h>
 
 const void *ref_skinny_vector(int i, int *bs, int *klen, const uint8_t **pt, const uint8_t **ct);
 const void *ref_mantis_vector(int i, int *rounds, const uint8_t **tweak, const uint8_t **pt, const uint8_t **ct);
@@ -22,14 +23,20 @@ static int real_skinny(int bs, const uint8_t *key, int klen, int dir,
 {
     if (bs == 16) {
         Skinny128Key_t ks;
-        memset(&ks, 0xA5, sizeof(ks));
+        verif_paint_obj(&ks, sizeof(ks)); verif_paint_stack();
         if (skinny128_set_key(&ks, key, (unsigned)klen) != 1) return 0;
+        out_digest("skinny128-schedule", ks.schedule, ks.rounds * sizeof(ks.schedule[0]));
+        verif_paint_stack();
         if (dir) skinny128_ecb_decrypt(out, in, &ks); else skinny128_ecb_encrypt(out, in, &ks);
+        out_digest("skinny128-block", out, 16);
     } else {
         Skinny64Key_t ks;
-        memset(&ks, 0xA5, sizeof(ks));
+        verif_paint_obj(&ks, sizeof(ks)); verif_paint_stack();
         if (skinny64_set_key(&ks, key, (unsigned)klen) != 1) return 0;
+        out_digest("skinny64-schedule", ks.schedule, ks.rounds * sizeof(ks.schedule[0]));
+        verif_paint_stack();
         if (dir) skinny64_ecb_decrypt(out, in, &ks); else skinny64_ecb_encrypt(out, in, &ks);
+        out_digest("skinny64-block", out, 8);
     }
     return 1;
 }
@@ -107,7 +114,7 @@ static void c02_case(const uint8_t *buf, size_t m, void *arg)
     MantisKey_t ks;
     (void)m;
     ++g_cnt.evaluations;
-    memset(&ks, 0x5A, sizeof(ks));
+    verif_paint_obj(&ks, sizeof(ks)); verif_paint_stack();
     if (mantis_set_key(&ks, key, 16, (unsigned)c->rounds,
                        c->mode ? MANTIS_DECRYPT : MANTIS_ENCRYPT) != 1) {
         snprintf(cd, sizeof(cd), "c02 %d %d %d %s", c->rounds, c->mode, c->path, hexs(buf, 32));
@@ -120,10 +127,14 @@ static void c02_case(const uint8_t *buf, size_t m, void *arg)
             violation("C02/set_tweak-rejected", cd, "mantis_set_tweak returned 0");
             return;
         }
+        verif_paint_stack();
         mantis_ecb_crypt(real, blk, &ks);
     } else {
+        verif_paint_stack();
         mantis_ecb_crypt_tweaked(real, blk, tweak, &ks);
     }
+    out_digest("mantis-schedule", &ks, offsetof(MantisKey_t, rounds) + sizeof(unsigned));
+    out_digest("mantis-block", real, 8);
     if (c->mode) ref_mantis_decrypt(key, tweak, c->rounds, blk, ref);
     else         ref_mantis_encrypt(key, tweak, c->rounds, blk, ref);
     if (memcmp(real, blk, 8) != 0)
@@ -151,7 +162,7 @@ static void c02z_case(const uint8_t *buf, size_t m, void *arg)
     MantisKey_t ks;
     (void)m;
     ++g_cnt.evaluations;
-    memset(&ks, 0xC3, sizeof(ks));
+    verif_paint_obj(&ks, sizeof(ks)); verif_paint_stack();
     if (mantis_set_key(&ks, key, 16, (unsigned)c->rounds, c->mode ? MANTIS_DECRYPT : MANTIS_ENCRYPT) != 1) {
         violation("C02/set_key-rejected", "", "mantis_set_key returned 0");
         return;
@@ -165,7 +176,9 @@ static void c02z_case(const uint8_t *buf, size_t m, void *arg)
             return;
         }
     }
+    verif_paint_stack();
     mantis_ecb_crypt(real, blk, &ks);
+    out_digest("mantis-block-zero-tweak", real, 8);
     if (c->mode) ref_mantis_decrypt(key, zero, c->rounds, blk, ref);
     else         ref_mantis_encrypt(key, zero, c->rounds, blk, ref);
     distinct_add_u64(fnv1a(real, 8, fnv1a(buf, 24, 77 + (uint64_t)(c->rounds * 4 + c->mode * 2 + c->how))));
@@ -328,15 +341,19 @@ static void c04_case(const uint8_t *buf, size_t m, void *arg)
     memcpy(tweak, buf, (size_t)c->bs);
     if (c->how == 1) memset(tweak, 0, 16);
     if (c->bs == 16) {
-        Skinny128TweakedKey_t tk; memset(&tk, 0x3C, sizeof(tk));
+        Skinny128TweakedKey_t tk; verif_paint_obj(&tk, sizeof(tk)); verif_paint_stack();
         ok = skinny128_set_tweaked_key(&tk, key, (unsigned)c->klen) == 1;
+        verif_paint_stack();
         if (ok && c->how == 0) ok = skinny128_set_tweak(&tk, tweak, 16) == 1;
-        if (ok) { if (c->dir) skinny128_ecb_decrypt(real, blk, &tk.ks); else skinny128_ecb_encrypt(real, blk, &tk.ks); }
+        if (ok) { out_digest("skinny128-tweaked-schedule", tk.ks.schedule, tk.ks.rounds * sizeof(tk.ks.schedule[0])); out_digest("skinny128-tweak", tk.tweak, 16); verif_paint_stack(); }
+        if (ok) { if (c->dir) skinny128_ecb_decrypt(real, blk, &tk.ks); else skinny128_ecb_encrypt(real, blk, &tk.ks); out_digest("skinny128-tweaked-block", real, 16); }
     } else {
-        Skinny64TweakedKey_t tk; memset(&tk, 0x3C, sizeof(tk));
+        Skinny64TweakedKey_t tk; verif_paint_obj(&tk, sizeof(tk)); verif_paint_stack();
         ok = skinny64_set_tweaked_key(&tk, key, (unsigned)c->klen) == 1;
+        verif_paint_stack();
         if (ok && c->how == 0) ok = skinny64_set_tweak(&tk, tweak, 8) == 1;
-        if (ok) { if (c->dir) skinny64_ecb_decrypt(real, blk, &tk.ks); else skinny64_ecb_encrypt(real, blk, &tk.ks); }
+        if (ok) { out_digest("skinny64-tweaked-schedule", tk.ks.schedule, tk.ks.rounds * sizeof(tk.ks.schedule[0])); out_digest("skinny64-tweak", tk.tweak, 8); verif_paint_stack(); }
+        if (ok) { if (c->dir) skinny64_ecb_decrypt(real, blk, &tk.ks); else skinny64_ecb_encrypt(real, blk, &tk.ks); out_digest("skinny64-tweaked-block", real, 8); }
     }
     snprintf(cd, sizeof(cd), "c04 %d %d %d %d %s", c->bs, c->klen, c->dir, c->how, hexs(buf, m));
     if (!ok) { violation("C04/setup-rejected", cd, "set_tweaked_key/set_tweak returned 0"); return; }
